@@ -10,6 +10,7 @@ import (
 	"regexp"
 	"strings"
 	"sync"
+	"syscall"
 	"time"
 
 	"verif/engine/evid"
@@ -168,7 +169,13 @@ func RunCases(r *evid.Run, spec CheckSpec, cases []Case) {
 		var res evid.ChildResult
 		for attempt := 0; attempt < 3; attempt++ {
 			res = evid.Child([]string{"-child", "-case", string(cj), "-scratch", dir}, env, timeout)
-			if !res.TimedOut {
+			// Killed from outside (SIGKILL without a crash line of the Go runtime: the kernel's
+			// out-of-memory killer on an overloaded machine): the case is executed again.
+			killed := !res.TimedOut && res.Signal == syscall.SIGKILL && crashLine.Find(res.Out) == nil
+			if killed {
+				r.Count("children_killed_from_outside_and_rerun", 1)
+			}
+			if !res.TimedOut && !killed {
 				break
 			}
 			_ = os.RemoveAll(dir)
